@@ -36,3 +36,12 @@ void __assert_fail(const char *a, const char *f, unsigned l, const char *fn)
     __CPROVER_assert(0, "libc assert() failed");
     __CPROVER_assume(0);
 }
+
+void *memchr(const void *s, int c, size_t n)
+{
+    const unsigned char *p = s;
+    for (size_t i = 0; i < n; i++)
+        if (p[i] == (unsigned char) c)
+            return (void *) (p + i);
+    return 0;
+}
